@@ -192,6 +192,18 @@ def impl_conv(schema, nn, resp=False, updq=True):
         return {"error": type(e).__name__}
 
 
+def impl_conv_history(schema, nn, resp=False, updq=True):
+    """the same raw schema object converted for the OTHER direction first (a response is validated, then a request body is
+    generated for an operation that shares the component): -> (result of the second conversion, the object afterwards)"""
+    from schemathesis.specs.openapi.converter import to_json_schema_recursive
+    shared = copy.deepcopy(schema)
+    try:
+        to_json_schema_recursive(shared, nn, is_response_schema=not resp, update_quantifiers=updq)
+        return {"ok": to_json_schema_recursive(shared, nn, is_response_schema=resp, update_quantifiers=updq), "after": shared}
+    except Exception as e:  # noqa: BLE001
+        return {"error": type(e).__name__}
+
+
 def impl_upd(p, lo, hi):
     from schemathesis.specs.openapi.patterns import update_quantifier
     try:
@@ -418,6 +430,16 @@ def conv_round(chk, drv, items, mechanism):
         if not agree:
             chk.disagreement(mechanism, {"schema": s, "nullable_name": nn, "resp": resp, "update_quantifiers": updq},
                              canon(m), canon(impl["ok"]))
+        # a raw component is shared by every operation that refers to it: what a conversion yields must not depend on the
+        # conversions made before (for the other direction), and the raw schema is left as it was
+        hist = impl_conv_history(s, nn, resp, updq)
+        if "ok" in hist and (dumps(hist["ok"]) != dumps(impl["ok"]) or dumps(hist["after"]) != dumps(s)):
+            what = "the raw schema object is modified" if dumps(hist["after"]) != dumps(s) else "the result differs"
+            chk.violation("C01:to_json_schema:conversion-depends-on-an-earlier-conversion-of-the-same-schema-object",
+                          f"converting for the {'request' if resp else 'response'} direction first and then for the "
+                          f"{'response' if resp else 'request'} direction: {what} (second result {canon(hist['ok'])!r:.200}, on a "
+                          f"fresh copy {canon(impl['ok'])!r:.200})",
+                          {"schema": s, "nullable_name": nn, "resp": resp, "update_quantifiers": updq, "history": "other direction first"})
         if resp or not updq or not in_spec(s):
             continue
         # replay: what the converted schema lets through must conform to the OpenAPI schema (request side)
